@@ -195,7 +195,12 @@ def main():
             cov['samples'] += [{'family': fam_name, 'case': c, 'impl': o[:400], 'model': v[:80]} for (c, o, v) in
                                rng.sample(triples, min(3, len(triples)))]
             certs += ev.get('certs', [])
-            fails = ev['failures']
+            # keep a few failures of every kind (so that a flood of one class, e.g. a known finding, cannot hide another)
+            per_kind = {}; fails = []
+            for fl in ev['failures']:
+                k = (fl.get('kind'), fl.get('rule'))
+                per_kind[k] = per_kind.get(k, 0) + 1
+                if per_kind[k] <= 5: fails.append(fl)
             for fl in fails:
                 k = match_known(pid, fl)
                 if k: known_hits.setdefault(k['id'], (k, fl))
